@@ -2,6 +2,7 @@
   C05 — property theorems about the model in `Verif.Model.C05`.
 -/
 import Verif.Lemmas.C05
+import Verif.Lemmas.C05Num
 import Verif.Props.C02
 
 namespace Verif.C05
@@ -101,6 +102,83 @@ example : globMatch (parsePat "Force HF/*".toList) "Force HF/Force 1x".toList = 
 example : globMatch (parsePat "*/Force 1y".toList) "Force HF/Force 1x".toList = false := by decide +kernel
 example : globMatch (parsePat "Force HF".toList) "Force HF/Force 1x".toList = false := by decide +kernel
 
+/-! ## The whole tree written under omit patterns -/
+
+/-- A node is written with its data and attributes iff it is a node of the source whose own path no omit pattern matches
+    — whatever happens to its parent group. -/
+theorem omit_tree_explicit (pats : List (List Pat)) (nodes : List (List Char)) (p : List Char) :
+    (⟨p, true⟩ : OutNode) ∈ writeOmit pats nodes ↔ p ∈ nodes ∧ ∀ q ∈ pats, ¬ Matches q p := by
+  unfold writeOmit
+  rw [writeOmit_aux_explicit]
+  have : exported pats p = true ↔ ∀ q ∈ pats, ¬ Matches q p := by
+    unfold exported
+    simp only [Bool.not_eq_true', List.any_eq_false, ← globMatch_iff]
+  rw [this]
+  simp
+
+/-- The paths present in the output are exactly the exported nodes and their ancestors (bare parents re-created for
+    kept children of an omitted group); nothing else appears. -/
+theorem omit_tree_present (pats : List (List Pat)) (nodes : List (List Char)) (p : List Char) :
+    (∃ n ∈ writeOmit pats nodes, n.path = p) ↔
+      ∃ q ∈ nodes, exported pats q = true ∧ (p = q ∨ p ∈ ancestors q) := by
+  have := writeOmit_aux_path pats nodes [] p
+  unfold HasPath at this
+  unfold writeOmit
+  rw [this]
+  simp
+
+/-- `ancestors` are the proper prefixes that end right before a `/` -/
+theorem mem_ancestors (p g : List Char) : g ∈ ancestors p ↔ ∃ rest, p = g ++ '/' :: rest := by
+  unfold ancestors
+  rw [List.mem_filterMap]
+  constructor
+  · rintro ⟨i, hi, h⟩
+    split at h
+    · rename_i hc
+      simp only [Option.some.injEq] at h
+      subst h
+      refine ⟨p.drop (i + 1), ?_⟩
+      have hlt : i < p.length := by simpa using hi
+      have : p[i] = '/' := by
+        rw [List.getElem?_eq_getElem hlt] at hc; simpa using hc
+      conv => lhs; rw [← List.take_append_drop i p]
+      rw [List.drop_eq_getElem_cons hlt, this]
+    · cases h
+  · rintro ⟨rest, rfl⟩
+    refine ⟨g.length, by simp, ?_⟩
+    simp
+
+/-- the status letters printed by the protocol op mean what the theorems talk about -/
+theorem node_status_spec (out : List OutNode) (p : List Char) :
+    (nodeStatus out p = "E" ↔ (⟨p, true⟩ : OutNode) ∈ out) ∧
+    (nodeStatus out p = "A" ↔ ¬ ∃ n ∈ out, n.path = p) := by
+  have hE : (out.any (fun n => n.path == p && n.explicit) = true) ↔ (⟨p, true⟩ : OutNode) ∈ out := by
+    rw [List.any_eq_true]
+    constructor
+    · rintro ⟨n, hn, h⟩
+      simp only [Bool.and_eq_true, beq_iff_eq] at h
+      obtain ⟨n1, n2⟩ := n
+      simp only at h
+      rw [← h.1, ← h.2]; exact hn
+    · intro h; exact ⟨_, h, by simp⟩
+  have hP : (out.any (fun n => n.path == p) = true) ↔ ∃ n ∈ out, n.path = p := by
+    rw [List.any_eq_true]; simp
+  unfold nodeStatus
+  by_cases h1 : out.any (fun n => n.path == p && n.explicit) = true
+  · rw [if_pos h1]
+    have hp : ∃ n ∈ out, n.path = p := ⟨_, hE.mp h1, rfl⟩
+    exact ⟨⟨fun _ => hE.mp h1, fun _ => rfl⟩, ⟨fun h => absurd h (by decide), fun h => absurd hp h⟩⟩
+  · rw [if_neg h1]
+    by_cases h2 : out.any (fun n => n.path == p) = true
+    · rw [if_pos h2]
+      exact ⟨⟨fun h => absurd h (by decide), fun h => absurd (hE.mpr h) h1⟩, ⟨fun h => absurd h (by decide), fun h => absurd (hP.mp h2) h⟩⟩
+    · rw [if_neg h2]
+      exact ⟨⟨fun h => absurd h (by decide), fun h => absurd (hE.mpr h) h1⟩, ⟨fun _ => fun h => h2 (hP.mpr h), fun _ => rfl⟩⟩
+
+/-- omitting a group does not omit its children; the group reappears bare as their parent -/
+example : (writeOmit [parsePat "A".toList] ["A".toList, "A/x".toList, "B".toList]).map (fun n => (String.ofList n.path, n.explicit))
+    = [("A", false), ("A/x", true), ("B", true)] := by decide +kernel
+
 /-! ## Cropped export of numerical channels -/
 
 /-- A written channel holds exactly the source samples with `a ≤ t < b` (C01's theorem applied to the
@@ -141,11 +219,434 @@ theorem crop_crop (s : C01.Src) (hdt : ∀ c, s = .cont c → 0 < c.dt) (a b c d
     (cropChannel (cropChannel s a b) c d).samples = (cropChannel s (max a c) (min b d)).samples := by
   rw [crop_is_slice _ hdt', crop_is_slice s hdt, crop_is_slice s hdt, C01.filter_inWin_inWin]
 
+/-! ## Sample period: stored as `1e9 / dt`, read back as `int(round(1e9 / rate))` (exact arithmetic) -/
+
+/-- `round`: a nearest integer … -/
+theorem roundHalfEven_nearest (y : Rat) :
+    (roundHalfEven y : Rat) - y ≤ 1 / 2 ∧ y - (roundHalfEven y : Rat) ≤ 1 / 2 := roundHalfEven_err y
+
+/-- … and on a tie the even one. -/
+theorem roundHalfEven_tie_even (y : Rat) (h : y - (y.floor : Rat) = 1 / 2) : roundHalfEven y % 2 = 0 := by
+  unfold roundHalfEven
+  simp only [h, lt_self_iff_false, if_false]
+  by_cases h3 : y.floor % 2 = 0
+  · rw [if_pos h3]; exact h3
+  · rw [if_neg h3]; omega
+
+example : roundHalfEven (5 / 2) = 2 ∧ roundHalfEven (7 / 2) = 4 ∧ roundHalfEven (-5 / 2) = -2 := by decide +kernel
+
+/-- The exact double-rounding function of the model (nearest, ties to even, 53 bits) meets the standard model of
+    floating-point arithmetic: relative error at most `2^-53` for every positive value. -/
+theorem double_rounding_std : StdModel flDouble := flDouble_std
+
+/-- Whatever the two divisions round to, as long as each is within relative error `2^-53`, a sample period of
+    `1 … 2^50` ns survives `to_dataset` → `from_dataset` unchanged. -/
+theorem period_round_trip (fl : Rat → Rat) (hfl : StdModel fl) (dt : Int) (h1 : 1 ≤ dt) (h2 : dt ≤ 2 ^ 50) :
+    periodOfRateQ fl (sampleRateQ fl dt) = dt := by
+  unfold periodOfRateQ sampleRateQ
+  obtain ⟨a, b⟩ := round_trip_near fl hfl dt h1 h2
+  exact roundHalfEven_of_near _ _ a b
+
+/-- non-vacuity: IEEE double rounding is such an `fl` -/
+example : StdModel flDouble := flDouble_std
+
+/-- The sample period written by `Continuous.to_dataset` and read by `Continuous.from_dataset` in double
+    arithmetic is the original one, for every period of `1 … 2^50` ns (> 13 days). -/
+theorem period_round_trip_double (dt : Int) (h1 : 1 ≤ dt) (h2 : dt ≤ 2 ^ 50) :
+    periodOfRateQ flDouble (sampleRateQ flDouble dt) = dt :=
+  period_round_trip flDouble flDouble_std dt h1 h2
+
+/-- Rounding is necessary (finding F7, fixed in /repo): the truncating read-back of the pinned snapshot loses a
+    nanosecond for a 55 ns period — kernel-evaluated on the exact doubles. -/
+theorem F7_witness_exact :
+    periodOfRateUnfixedQ flDouble (sampleRateQ flDouble 55) = 54 ∧
+    periodOfRateQ flDouble (sampleRateQ flDouble 55) = 55 := by decide +kernel
+
+/-! ## Sample rate of a time series -/
+
+/-- A time series on a regular grid of at least two samples has that grid's step … -/
+theorem tsStep_grid (t0 d : Int) (n : Nat) (hn : 2 ≤ n) : tsStep (grid t0 d n) = some d := by
+  obtain ⟨k, rfl⟩ : ∃ k, n = k + 2 := ⟨n - 2, by omega⟩
+  unfold tsStep
+  rw [diffs_grid d (k + 1) t0, List.replicate_succ]
+  simp
+
+/-- … and only those have one: a unique step means the timestamps are `t0, t0 + d, t0 + 2d, …` -/
+theorem tsStep_some (ts : List Int) (d : Int) (h : tsStep ts = some d) :
+    ∃ t0 n, 2 ≤ n ∧ ts = grid t0 d n := by
+  unfold tsStep at h
+  split at h
+  · cases h
+  · rename_i d' ds hd
+    split at h
+    · rename_i hall
+      simp only [Option.some.injEq] at h
+      subst h
+      -- every difference is d'
+      have hall' : ∀ x ∈ diffs ts, x = d' := by
+        intro x hx
+        rw [hd] at hx
+        rcases List.mem_cons.mp hx with rfl | hx
+        · rfl
+        · have := List.all_eq_true.mp hall x hx
+          simpa using this
+      have hlen : diffs ts ≠ [] := by rw [hd]; simp
+      clear hd hall
+      induction ts with
+      | nil => simp [diffs] at hlen
+      | cons a r ih =>
+        cases r with
+        | nil => simp [diffs] at hlen
+        | cons b r' =>
+          have hb : b - a = d' := hall' (b - a) (by simp [diffs])
+          cases r' with
+          | nil =>
+            refine ⟨a, 2, by omega, ?_⟩
+            simp only [grid]
+            congr 2; omega
+          | cons c r'' =>
+            obtain ⟨t0, n, hn, e⟩ := ih (fun x hx => hall' x (by simp only [diffs] at hx ⊢; exact List.mem_cons_of_mem _ hx))
+              (by simp [diffs])
+            refine ⟨a, n + 1, by omega, ?_⟩
+            have : t0 = b := by
+              cases n with
+              | zero => omega
+              | succ m => simp only [grid, List.cons.injEq] at e; exact e.1.symm
+            subst this
+            simp only [grid, e]
+            congr 2; omega
+    · cases h
+
+/-- The sample rate reported for a time series is `1e9 / d` (one rounded division) exactly when its timestamps form a
+    regular grid of step `d ≠ 0` with at least two samples, and `None` otherwise. -/
+theorem ts_sample_rate_spec (fl : Rat → Rat) (ts : List Int) (r : Rat) :
+    tsSampleRate fl ts = some r ↔
+      ∃ t0 d n, 2 ≤ n ∧ d ≠ 0 ∧ ts = grid t0 d n ∧ r = fl (1000000000 / (d : Rat)) := by
+  unfold tsSampleRate
+  constructor
+  · intro h
+    split at h
+    · rename_i d hd
+      split at h
+      · cases h
+      · rename_i hd0
+        simp only [Option.some.injEq] at h
+        obtain ⟨t0, n, hn, e⟩ := tsStep_some ts d hd
+        exact ⟨t0, d, n, hn, hd0, e, h.symm⟩
+    · cases h
+  · rintro ⟨t0, d, n, hn, hd0, e, hr⟩
+    rw [e, tsStep_grid t0 d n hn]
+    simp only [if_neg hd0, hr]
+
+example : tsSampleRate flDouble [100, 110, 120] = some 100000000 := by decide +kernel
+example : tsSampleRate flDouble [100, 110, 125] = none := by decide +kernel
+example : tsSampleRate flDouble [100] = none := by decide +kernel
+
+/-- The bound on the period in `period_round_trip` cannot simply be dropped: below `2^52` ns there is a period that the
+    double round trip changes (kernel-evaluated on the exact doubles). -/
+theorem period_bound_witness :
+    periodOfRateQ flDouble (sampleRateQ flDouble 3074885023508251) ≠ 3074885023508251 ∧
+    (3074885023508251 : Int) < 2 ^ 52 := by decide +kernel
+
+/-! ## Datasets: write, classify, read back -/
+
+/-- Writing a channel with `to_dataset` and reading the dataset with `channel_class(dset).from_dataset(dset)` gives the
+    channel back — same class, same start, same period, same numbers (time tags: the same tags; their slice bounds
+    are not stored) — for every `fl` within the standard model, every period of `1 … 2^50` ns and every non-empty
+    time series. -/
+theorem write_read (fl : Rat → Rat) (hfl : StdModel fl) (s : C01.Src)
+    (hdt : ∀ c, s = .cont c → 1 ≤ c.dt ∧ c.dt ≤ 2 ^ 50) (hne : ∀ l, s = .ts l → l ≠ []) :
+    ∃ d, toDataset fl s = .ok d ∧ fromDataset fl d = .ok (reread s) := by
+  cases s with
+  | cont c =>
+    refine ⟨_, rfl, ?_⟩
+    obtain ⟨h1, h2⟩ := hdt c rfl
+    simp [fromDataset, channelClass, reread, period_round_trip fl hfl c.dt h1 h2]
+  | ts l =>
+    have hl := hne l rfl
+    obtain ⟨f, hf⟩ : ∃ f, l.head? = some f := by
+      cases l with
+      | nil => exact absurd rfl hl
+      | cons x xs => exact ⟨x, rfl⟩
+    obtain ⟨e, he⟩ : ∃ e, l.getLast? = some e := by
+      cases h : l.getLast? with
+      | none => exact absurd (List.getLast?_eq_none_iff.mp h) hl
+      | some e => exact ⟨e, rfl⟩
+    refine ⟨⟨.bytes "TimeSeries", some f.1, some (e.1 + 1), none, .compound l⟩, ?_, ?_⟩
+    · simp only [toDataset, hf, he]
+    · simp [fromDataset, channelClass, reread]
+  | tags t =>
+    refine ⟨_, rfl, ?_⟩
+    simp [fromDataset, channelClass, reread]
+
+example : toDataset flDouble (.ts []) = .error "IndexError" := by decide +kernel
+example : (toDataset flDouble (.cont ⟨100, 55, [7, 8, 9]⟩)).toOption.map (·.stop) = some (some 265) := by decide +kernel
+
+/-- what the cropped file's channel is read back as, in closed form -/
+theorem crop_export_read_eq (fl : Rat → Rat) (hfl : StdModel fl) (s : C01.Src)
+    (hdt : ∀ c, s = .cont c → 1 ≤ c.dt ∧ c.dt ≤ 2 ^ 50) (a b : Int) (hw : channelWritten s a b = true) :
+    cropExportRead fl s a b = .ok (some (reread (cropChannel s a b))) := by
+  have hlen : (cropChannel s a b).len ≠ 0 := by simpa [channelWritten] using hw
+  obtain ⟨d, hd1, hd2⟩ := write_read fl hfl (cropChannel s a b)
+    (fun c' hc' => by
+      obtain ⟨c, hc, e⟩ := crop_cont_dt s a b c' hc'
+      rw [e]; exact hdt c hc)
+    (fun l hl hnil => by
+      apply hlen; rw [hl, hnil]; rfl)
+  unfold cropExportRead
+  rw [if_pos hw, hd1]
+  simp only [hd2]; rfl
+
+/-- `save_as(crop_time_range=(a, b))` followed by `File(new)[name]`: the channel is in the new file iff it has a sample
+    in the window, and what is read back from the written dataset (through the stored start, sample rate in double
+    arithmetic, kind and numbers) has exactly the source samples with `a ≤ t < b`. -/
+theorem cropped_export_reads_back (fl : Rat → Rat) (hfl : StdModel fl) (s : C01.Src)
+    (hdt : ∀ c, s = .cont c → 1 ≤ c.dt ∧ c.dt ≤ 2 ^ 50) (a b : Int) :
+    (channelWritten s a b = true →
+      ∃ s', cropExportRead fl s a b = .ok (some s') ∧ s'.samples = s.samples.filter (C01.inWin a b)) ∧
+    (channelWritten s a b = false → cropExportRead fl s a b = .ok none) := by
+  have hdt0 : ∀ c, s = .cont c → 0 < c.dt := fun c hc => by have := (hdt c hc).1; omega
+  constructor
+  · intro hw
+    exact ⟨_, crop_export_read_eq fl hfl s hdt a b hw, by rw [reread_samples, crop_is_slice s hdt0]⟩
+  · intro hw
+    unfold cropExportRead
+    rw [hw]; rfl
+
+/-- format v1 stores no `Kind`: what `to_dataset` writes for a continuous or time-series channel is classified the
+    same without it -/
+theorem channel_class_v1 (fl : Rat → Rat) (s : C01.Src) (d : Dset) (h : toDataset fl s = .ok d)
+    (hs : ∀ t, s ≠ .tags t) : channelClass { d with kind := .absent } = channelClass d := by
+  cases s with
+  | cont c =>
+    simp only [toDataset, Except.ok.injEq] at h
+    subst h
+    simp [channelClass]
+  | ts l =>
+    simp only [toDataset] at h
+    split at h
+    · simp only [Except.ok.injEq] at h
+      subst h
+      simp [channelClass]
+    · cases h
+  | tags t => exact absurd rfl (hs t)
+
+/-- `bytes` and `str` spellings of `Kind` are read alike (Bluelake writes bytes, `to_dataset` writes either). -/
+theorem channel_class_bytes (k : String) (d : Dset) :
+    channelClass { d with kind := .bytes k } = channelClass { d with kind := .str k } := rfl
+
+/-- non-vacuity / worked instance: a 55 ns channel (the F7 period) cropped off-grid, written and read back -/
+example : cropExportRead flDouble (.cont ⟨1000, 55, [0, 1, 2, 3]⟩) 1050 1150 = .ok (some (.cont ⟨1055, 55, [1, 2]⟩)) := by
+  decide +kernel
+example : cropExportRead flDouble (.ts [(5, 0), (9, 1)]) 10 20 = .ok none := by decide +kernel
+example : channelClass ⟨.str "Scan", none, none, none, .plain []⟩ = .error "RuntimeError" := by decide +kernel
+example : channelClass ⟨.absent, none, none, none, .plain []⟩ = .error "IndexError" := by decide +kernel
+
+
+/-! ## Composition: export, reopen, export again -/
+
+/-- `crop_crop` without its second hypothesis: cropping establishes it. -/
+theorem crop_crop_full (s : C01.Src) (hdt : ∀ c, s = .cont c → 0 < c.dt) (a b c d : Int) :
+    (cropChannel (cropChannel s a b) c d).samples = (cropChannel s (max a c) (min b d)).samples :=
+  crop_crop s hdt a b c d (fun c' hc' => by
+    obtain ⟨c0, h0, e⟩ := crop_cont_dt s a b c' hc'
+    rw [e]; exact hdt c0 h0)
+
+/-- The sample rate a reader reports (`1e9 / dt` of the period it read) is the stored one. -/
+theorem sample_rate_round_trip (fl : Rat → Rat) (hfl : StdModel fl) (dt : Int) (h1 : 1 ≤ dt) (h2 : dt ≤ 2 ^ 50) :
+    sampleRateQ fl (periodOfRateQ fl (sampleRateQ fl dt)) = sampleRateQ fl dt := by
+  rw [period_round_trip fl hfl dt h1 h2]
+
+/-- A format-v1 file (no `Kind` attributes) is read like a v2 file: dropping `Kind` from what `to_dataset` writes for a
+    continuous or time-series channel does not change what `from_dataset` returns. -/
+theorem read_v1_same (fl : Rat → Rat) (s : C01.Src) (d : Dset) (h : toDataset fl s = .ok d) (hs : ∀ t, s ≠ .tags t) :
+    fromDataset fl { d with kind := .absent } = fromDataset fl d := by
+  have := channel_class_v1 fl s d h hs
+  unfold fromDataset
+  rw [this]
+
+theorem reread_cont_dt (s : C01.Src) (c : C01.Cont) (h : reread s = .cont c) : s = .cont c := by
+  cases s with
+  | cont c0 => simpa [reread] using h
+  | ts l => simp [reread] at h
+  | tags t => simp [reread] at h
+
+/-- Export, reopen, export again with a second window, reopen: the channel holds exactly the source samples in the
+    intersection of the two windows, and is absent iff there is none (a channel absent after the first export stays
+    absent). -/
+theorem reexport_crop (fl : Rat → Rat) (hfl : StdModel fl) (s : C01.Src)
+    (hdt : ∀ c, s = .cont c → 1 ≤ c.dt ∧ c.dt ≤ 2 ^ 50) (a b c d : Int) (s1 : C01.Src)
+    (h1 : cropExportRead fl s a b = .ok (some s1)) :
+    (∃ s2, cropExportRead fl s1 c d = .ok (some s2) ∧
+        s2.samples = s.samples.filter (C01.inWin (max a c) (min b d)) ∧ s2.samples ≠ []) ∨
+    (cropExportRead fl s1 c d = .ok none ∧ s.samples.filter (C01.inWin (max a c) (min b d)) = []) := by
+  obtain ⟨hw, hnw⟩ := cropped_export_reads_back fl hfl s hdt a b
+  have hwt : channelWritten s a b = true := by
+    by_contra hf
+    have := hnw (by simpa using hf)
+    rw [this] at h1; cases h1
+  obtain ⟨s1', e1, hs1⟩ := hw hwt
+  rw [e1] at h1
+  simp only [Except.ok.injEq, Option.some.injEq] at h1
+  subst h1
+  -- the period of what was read back is the source's
+  have hdt1 : ∀ c1, s1' = .cont c1 → 1 ≤ c1.dt ∧ c1.dt ≤ 2 ^ 50 := by
+    intro c1 hc1
+    have := crop_export_read_eq fl hfl s hdt a b hwt
+    rw [e1] at this
+    simp only [Except.ok.injEq, Option.some.injEq] at this
+    rw [this] at hc1
+    have h2 := reread_cont_dt _ _ hc1
+    obtain ⟨c0, hc0, e⟩ := crop_cont_dt s a b c1 h2
+    rw [e]; exact hdt c0 hc0
+  obtain ⟨hw2, hnw2⟩ := cropped_export_reads_back fl hfl s1' hdt1 c d
+  have hfilt : s1'.samples.filter (C01.inWin c d) = s.samples.filter (C01.inWin (max a c) (min b d)) := by
+    rw [hs1, C01.filter_inWin_inWin]
+  have hdt1' : ∀ c1, s1' = .cont c1 → 0 < c1.dt := fun c1 hc1 => by have := (hdt1 c1 hc1).1; omega
+  by_cases hw2t : channelWritten s1' c d = true
+  · obtain ⟨s2, e2, hs2⟩ := hw2 hw2t
+    left
+    refine ⟨s2, e2, by rw [hs2, hfilt], ?_⟩
+    have hlen : (cropChannel s1' c d).len ≠ 0 := by simpa [channelWritten] using hw2t
+    rw [len_eq_samples_length, crop_is_slice s1' hdt1'] at hlen
+    rw [hs2]
+    intro hnil; apply hlen; rw [hnil]; rfl
+  · right
+    have hf : channelWritten s1' c d = false := by simpa using hw2t
+    refine ⟨hnw2 hf, ?_⟩
+    rw [← hfilt]
+    have := (crop_absent_iff_empty s1' hdt1' c d).mp hf
+    rw [List.filter_eq_nil_iff]
+    intro x hx hwin
+    exact this x hx (by simpa [C01.inWin] using hwin)
+
+/-- non-vacuity: 100…130 step 10; first export [105, 135) keeps 110, 120, 130; second [0, 125) keeps 110, 120 -/
+example : (cropExportRead flDouble (.cont ⟨100, 10, [0, 1, 2, 3]⟩) 105 135).toOption = some (some (.cont ⟨110, 10, [1, 2, 3]⟩)) := by
+  decide +kernel
+example : (cropExportRead flDouble (.cont ⟨110, 10, [1, 2, 3]⟩) 0 125).toOption = some (some (.cont ⟨110, 10, [1, 2]⟩)) := by
+  decide +kernel
+
+/-! ## Calibration of a force channel and of its slices (`from_field` → `Slice.calibration`) -/
+
+/-- The items `from_field` collects for a channel are exactly the calibration groups that hold the channel with a time
+    field, each carrying that time … -/
+theorem cal_from_field_mem (groups : List CalGroup) (ch : String) (x : CalItem) :
+    x ∈ calFromField groups ch ↔ ∃ g, groups[x.id]? = some g ∧ g.channels.lookup ch = some (some x.time) := by
+  unfold calFromField
+  rw [List.mem_filterMap]
+  constructor
+  · rintro ⟨⟨g, i⟩, hm, hf⟩
+    have hg := List.mem_zipIdx_iff_getElem?.mp hm
+    simp only at hf
+    split at hf
+    · rename_i t ht
+      simp only [Option.some.injEq] at hf
+      subst hf
+      exact ⟨g, hg, ht⟩
+    · cases hf
+  · rintro ⟨g, hg, hl⟩
+    refine ⟨(g, x.id), List.mem_zipIdx_iff_getElem?.mpr hg, ?_⟩
+    simp only [hl]
+
+/-- … in the order of the groups. -/
+theorem cal_from_field_order (groups : List CalGroup) (ch : String) :
+    (calFromField groups ch).Pairwise (fun x y => x.id < y.id) := by
+  unfold calFromField
+  refine (filterMap_zipIdx_ids _ ?_ groups 0).2
+  intro g i x h
+  simp only at h
+  split at h
+  · simp only [Option.some.injEq] at h; rw [← h]
+  · cases h
+
+example : (calFromField [⟨[("Force 1x", some 5), ("Force 2x", none)]⟩, ⟨[]⟩, ⟨[("Force 1x", none)]⟩, ⟨[("Force 1x", some 3)]⟩] "Force 1x")
+    = [⟨5, 0⟩, ⟨3, 3⟩] := by decide +kernel
+
+/-- A force channel sliced to `[a, b)` that keeps at least one sample lists the calibration items that apply to the time
+    range of what it kept: from the first kept timestamp to one step (the sample period; 1 ns for a time series) after the
+    last kept one — and nothing when the file has no item for the channel.  (With `filter_calibration_spec`: the last
+    item applied at or before the first kept sample, then those strictly inside.) -/
+theorem slice_calibration_spec (items : List CalItem) (s : C01.Src) (hs : ∀ t, s ≠ .tags t)
+    (hdt : ∀ c, s = .cont c → 0 < c.dt) (a b : Int) (x y : C01.Sample) (rest : List C01.Sample)
+    (hk : s.samples.filter (C01.inWin a b) = x :: rest) (hy : (x :: rest).getLast? = some y) :
+    sliceCalibration items (cropChannel s a b) =
+      if items = [] then [] else filterCalibration items x.1 (y.1 + stepOf s) := by
+  have hsm : (cropChannel s a b).samples = x :: rest := by rw [crop_is_slice s hdt, hk]
+  obtain ⟨hk1, hk2⟩ := crop_kind s a b hs
+  obtain ⟨h1, h2⟩ := src_range (cropChannel s a b) hk1 x y rest hsm hy
+  unfold sliceCalibration
+  by_cases hi : items = []
+  · simp [hi]
+  · rw [if_neg hi, if_neg (by simpa using hi)]
+    rw [← hk2, ← h1, ← h2]
+    split
+    · rename_i heq
+      rw [heq] at hsm; simp [C01.Src.samples] at hsm
+    · rfl
+
+/-- the same through the file's access path, whole channel and sliced -/
+theorem channel_calibration_spec (groups : List CalGroup) (ch : String) (s : C01.Src) (hs : ∀ t, s ≠ .tags t)
+    (hdt : ∀ c, s = .cont c → 0 < c.dt) (a b : Int) (x y : C01.Sample) (rest : List C01.Sample)
+    (hk : s.samples.filter (C01.inWin a b) = x :: rest) (hy : (x :: rest).getLast? = some y) :
+    channelCalibration groups ch s (some (a, b)) =
+      if calFromField groups ch = [] then [] else filterCalibration (calFromField groups ch) x.1 (y.1 + stepOf s) :=
+  slice_calibration_spec (calFromField groups ch) s hs hdt a b x y rest hk hy
+
+theorem channel_calibration_whole (groups : List CalGroup) (ch : String) (s : C01.Src) (hs : ∀ t, s ≠ .tags t)
+    (x y : C01.Sample) (rest : List C01.Sample) (hk : s.samples = x :: rest) (hy : (x :: rest).getLast? = some y) :
+    channelCalibration groups ch s none =
+      if calFromField groups ch = [] then [] else filterCalibration (calFromField groups ch) x.1 (y.1 + stepOf s) := by
+  obtain ⟨h1, h2⟩ := src_range s hs x y rest hk hy
+  unfold channelCalibration sliceCalibration
+  by_cases hi : calFromField groups ch = []
+  · simp [hi]
+  · rw [if_neg hi, if_neg (by simpa using hi)]
+    cases s with
+    | ts l =>
+      cases l with
+      | nil => simp [C01.Src.samples] at hk
+      | cons z zs => simp only [h1, h2]
+    | cont c => simp only [h1, h2]
+    | tags t => exact absurd rfl (hs t)
+
+/-- non-vacuity: a 10 ns channel 100…129 sliced to [105, 125) keeps 110 and 120; items at 5 (before), 115 (inside),
+    130 (= last + period: outside) -/
+example : ((C01.Src.cont ⟨100, 10, [5, 6, 7]⟩).samples.filter (C01.inWin 105 125)) = [(110, 6), (120, 7)] := by decide
+example : (channelCalibration [⟨[("Force 1x", some 5)]⟩, ⟨[("Force 1x", some 115)]⟩, ⟨[("Force 1x", some 130)]⟩] "Force 1x"
+    (.cont ⟨100, 10, [5, 6, 7]⟩) (some (105, 125))).map (·.id) = [0, 1] := by decide +kernel
+
 /-! ## Time-stamped metadata items -/
 
 theorem keepMeta_spec (st sp a b : Int) :
     keepMeta st sp a b = true ↔ (a ≤ sp ∧ st < b ∧ st < sp) := by
   unfold keepMeta; simp; omega
+
+/-- A time-stamped item is written to the cropped file iff it can crop itself and the cropped item has positive duration,
+    ends at or after the window start and begins before the window end; its time attributes are then the cropped item's. -/
+theorem write_cropped_meta_spec (sliced : Option (Int × Int)) (a b : Int) (r : Int × Int) :
+    writeCroppedMeta sliced a b = some r ↔ sliced = some r ∧ a ≤ r.2 ∧ r.1 < b ∧ r.1 < r.2 := by
+  unfold writeCroppedMeta
+  cases sliced with
+  | none => simp
+  | some s =>
+    obtain ⟨st, sp⟩ := s
+    simp only [Option.some.injEq]
+    by_cases h : keepMeta st sp a b = true
+    · rw [if_pos h]
+      have := (keepMeta_spec st sp a b).mp h
+      constructor
+      · intro e; simp only [Option.some.injEq] at e; subst e; exact ⟨rfl, this⟩
+      · rintro ⟨e, _⟩; rw [e]
+    · rw [if_neg h]
+      constructor
+      · intro e; cases e
+      · rintro ⟨e, h2⟩
+        subst e
+        exact absurd ((keepMeta_spec st sp a b).mpr h2) h
+
+example : writeCroppedMeta (some (10, 20)) 15 30 = some (10, 20) := by decide
+example : writeCroppedMeta (some (10, 10)) 0 30 = none := by decide
+example : writeCroppedMeta none 0 30 = none := by decide
 
 /-! ## (ext) Cropped kymograph / scan items: whole lines inside the window are reproduced unchanged -/
 
@@ -185,6 +686,26 @@ theorem cropped_kymo_lines (s : List C02.Sample) (i j : Nat) (hij : i ≤ j)
   rw [h2, List.take_left', h1, List.drop_left']
   · rfl
   · rfl
+
+/-- The line-safe hypothesis is necessary: a cut in the middle of a pixel (two samples `5`, `6` forming one pixel of 11
+    counts, cut after the first) yields a pixel of 6 counts that the original does not have. -/
+theorem cut_ok_necessary :
+    ¬ CutOk ([((5 : Int), 1), (6, 2)].take 1) ∧
+    C02.pixelsSpecAux 0 (([((5 : Int), 1), (6, 2)].take 2).drop 1) ≠
+      ((C02.pixelsSpecAux 0 [((5 : Int), 1), (6, 2)]).take (C02.pixelsSpecAux 0 ([((5 : Int), 1), (6, 2)].take 2)).length).drop
+        (C02.pixelsSpecAux 0 ([((5 : Int), 1), (6, 2)].take 1)).length := by
+  refine ⟨?_, by decide⟩
+  rintro (h | ⟨init, d, dead, h, hd⟩)
+  · cases h
+  · have hl := congrArg List.getLast? h
+    simp only [List.take_succ_cons, List.take_zero, List.getLast?_singleton] at hl
+    rcases List.eq_nil_or_concat dead with rfl | ⟨dd, x, rfl⟩
+    · simp at hl
+    · have hx := hd x (by simp)
+      simp only [List.concat_eq_append, ← List.append_assoc, List.getLast?_append, List.getLast?_singleton, Option.some_or] at hl
+      simp only [Option.some.injEq] at hl
+      rw [← hl] at hx
+      cases hx
 
 /-- Non-vacuity: two lines of two pixels (k = 1) with one dead sample after each line; cropping to the
     second line (samples 3…5) gives the last two pixels. -/
